@@ -22,6 +22,7 @@ import (
 	"github.com/libp2p/go-libp2p/core/host"
 	"github.com/libp2p/go-libp2p/core/network"
 	"github.com/libp2p/go-libp2p/core/peer"
+	"github.com/libp2p/go-libp2p/core/protocol"
 	mocknetwork "github.com/libp2p/go-libp2p/p2p/net/mock"
 )
 
@@ -47,9 +48,31 @@ func newNet(n int) (mocknetwork.Mocknet, []host.Host, error) {
 	return mn, hs, nil
 }
 
+// yieldDS is a datastore whose reads call a hook first (design E3: yield injection at an
+// interface the harness implements, to widen race windows; no behaviour change).
+type yieldDS struct {
+	datastore.Datastore
+	onGet func()
+}
+
+func (y yieldDS) Get(ctx context.Context, k datastore.Key) ([]byte, error) {
+	if y.onGet != nil {
+		y.onGet()
+	}
+	return y.Datastore.Get(ctx, k)
+}
+
 // newStore creates a certificate store holding the first n certificates of ch.
 func newStore(ctx context.Context, ch *Chain, n int) (*certstore.Store, error) {
-	ds := ds_sync.MutexWrap(datastore.NewMapDatastore())
+	return newStoreHook(ctx, ch, n, nil)
+}
+
+// newStoreHook is newStore with a hook called before every datastore read.
+func newStoreHook(ctx context.Context, ch *Chain, n int, onGet func()) (*certstore.Store, error) {
+	var ds datastore.Datastore = ds_sync.MutexWrap(datastore.NewMapDatastore())
+	if onGet != nil {
+		ds = yieldDS{Datastore: ds, onGet: onGet}
+	}
 	cs, err := certstore.CreateStore(ctx, ds, ch.First, ch.Tables[0])
 	if err != nil {
 		return nil, err
@@ -507,4 +530,20 @@ func refClientView(ex exchange) clientView {
 		v.Raw = append(v.Raw, it.Raw)
 	}
 	return v
+}
+
+// countingHost wraps a host so that every inbound stream of a handler registered through it is
+// reported first (remote peer); used as the logical watchdog against a Poll that never returns.
+type countingHost struct {
+	host.Host
+	onStream func(remote peer.ID)
+}
+
+func (c countingHost) SetStreamHandler(pid protocol.ID, h network.StreamHandler) {
+	c.Host.SetStreamHandler(pid, func(s network.Stream) {
+		if c.onStream != nil {
+			c.onStream(s.Conn().RemotePeer())
+		}
+		h(s)
+	})
 }
